@@ -962,7 +962,7 @@ fn engine(args: Args) {
         run.assume("LRU ambiguity: lookups that return nothing may or may not count as a use; ties in time are ties");
     }
     let seed = args.seed;
-    let n_hist = args.size(60_000, 3_000_000);
+    let n_hist = args.size(60_000, 1_500_000);
     let targeted = targeted_histories();
 
     run.parallel(THREADS, 8 << 20, |ti, sh| {
@@ -1023,7 +1023,7 @@ fn engine(args: Args) {
     if prop == "C05" {
         // resolver leg: what the resolver learnt from upstream is served from the cache with a reduced TTL before
         // it expires, and fetched again afterwards
-        let n_univ = args.size(3_000, 150_000);
+        let n_univ = args.size(3_000, 60_000);
         run.parallel(THREADS, 2 << 20, |ti, sh| {
             let mut rng = Rng::new(seed).fork(0x05e5 + ti as u64);
             let mut sim = verif_harness::netsim::Sim::new();
@@ -1036,7 +1036,7 @@ fn engine(args: Args) {
     if prop == "C15" {
         // thread leg (sequential runs, each internally parallel)
         let mut sh = Shard::new();
-        let runs = args.size(3, 120);
+        let runs = args.size(3, 60);
         let mut reports = Vec::new();
         for r in 0..runs {
             let nthreads = [2usize, 4, 8][(r % 3) as usize];
